@@ -146,3 +146,110 @@ func H16_host() {
 		}
 	}
 }
+
+// a host record whose optional parts are declared with the `maybe` tag: two
+// of a kind that cannot be nil (a present payload whatever its value - zero,
+// false and "" included), one pointer
+type c16Acct struct {
+	Balance float64  `yae:"balance,maybe"`
+	Active  bool     `yae:"active,maybe"`
+	Nick    string   `yae:"nick,maybe"`
+	Limit   *float64 `yae:"limit,maybe"`
+}
+
+type c16Accts struct {
+	Acct c16Acct   `yae:"acct"`
+	Old  []c16Acct `yae:"old"`
+	New  []c16Acct `yae:"new"`
+}
+
+// H16_values: `get(optional, default)` is the payload when one is present and
+// the default otherwise - for a declared-optional field of a kind that cannot
+// be nil the payload is always present, whatever its value (0, false and ""
+// are payloads); comparing containers that hold optionals is an ordinary
+// accepted expression over host data with nil pointers: it never fails, and
+// an absent optional equals only an absent one.
+func H16_values() {
+	var lim *float64
+	if sv.Bool("limit.present") {
+		x := sv.Float64("limit")
+		lim = &x
+	}
+	a := c16Acct{Balance: sv.Float64("balance"), Active: sv.Bool("active"), Nick: []string{"", "bo"}[sv.Choice("nick", 2)], Limit: lim}
+	other := a
+	switch sv.Choice("other", 3) {
+	case 1: // the other record's optional pointer is the other way round
+		if lim == nil {
+			y := 2.5
+			other.Limit = &y
+		} else {
+			other.Limit = nil
+		}
+	case 2:
+		other.Nick = "zed"
+	}
+	env := c16Accts{Acct: a, Old: []c16Acct{a}, New: []c16Acct{other}}
+	sameLimit := (a.Limit == nil) == (other.Limit == nil)
+	type prog struct {
+		src  string
+		kind int // 0 num, 1 bool, 2 str
+		n    func() float64
+		b    func() bool
+		s    func() string
+	}
+	progs := []prog{
+		{src: "get(acct.balance, 100)", kind: 0, n: func() float64 { return a.Balance }},
+		{src: "get(acct.active, true)", kind: 1, b: func() bool { return a.Active }},
+		{src: "get(acct.nick, \"anon\")", kind: 2, s: func() string { return a.Nick }},
+		{src: "get(acct.limit, 7)", kind: 0, n: func() float64 {
+			if a.Limit == nil {
+				return 7
+			}
+			return *a.Limit
+		}},
+		{src: "get(old[0].balance, 100) + get(new[0].balance, 1)", kind: 0, n: func() float64 { return a.Balance + other.Balance }},
+		{src: "old == old", kind: 1, b: func() bool { return true }},
+		{src: "[acct.limit] != [new[0].limit]", kind: 1, b: func() bool { return !sameLimit }},
+		{src: "[old[0].limit] == [new[0].limit]", kind: 1, b: func() bool { return sameLimit }},
+	}
+	p := progs[sv.Choice("prog", len(progs))]
+	if p.src == "old == old" || hasLimitCmp(p.src) {
+		// equality of numbers is a tolerance (C04); keep the payloads apart from it
+		sv.Assume(a.Balance > -1e9 && a.Balance < 1e9)
+		if a.Limit != nil {
+			sv.Assume(*a.Limit > -1e9 && *a.Limit < 1e9)
+		}
+	}
+	ex := exprWith(sv.Choice("backend", hx.NBackends))
+	var c Callable
+	var err error
+	var r *val.Val
+	cls := sv.Outcome(func() { c, err = ex.Compile(p.src, env) })
+	sv.Assert("accepted", cls == "ok" && err == nil)
+	if cls != "ok" || err != nil {
+		return
+	}
+	cls = sv.Outcome(func() { r, err = c(env) })
+	sv.Assert("absence-never-makes-an-accepted-expression-fail", cls == "ok" && err == nil)
+	if cls != "ok" || err != nil {
+		return
+	}
+	switch p.kind {
+	case 0:
+		sv.Assert("payload-when-present-default-otherwise", r != nil && r.Type == types.Num && sv.Same(r.Num().V, p.n()))
+	case 1:
+		sv.Assert("payload-when-present-default-otherwise", r != nil && r.Type == types.Bool && r.Bool().V == p.b())
+	case 2:
+		sv.Assert("payload-when-present-default-otherwise", r != nil && r.Type == types.Str && r.Str().V == p.s())
+	}
+	sv.Reach("evaluated")
+}
+
+func hasLimitCmp(s string) bool {
+	for i := 0; i+5 <= len(s); i++ {
+		if s[i:i+5] == "limit" {
+			return true
+		}
+	}
+	return false
+}
